@@ -347,6 +347,16 @@ def r_mask(ctx):
     verdict_stores = [s for s in stores if s[3][0] == 'call' and s[3][1][0] == 'attr' and s[3][1][2] == 'valid'
                       and s[3][1][1] == ('v', 'bio_filter', 'P')]
     if not verdict_stores:
+        # the verdict compared by identity with True / False: a filter may return numpy.bool_ or a truthy value
+        for s in stores:
+            v = s[3]
+            if v[0] == 'cmp' and v[1] in ('is', 'is not') and v[3] in (('c', True), ('c', False)) and v[2][0] == 'call' and \
+                    v[2][1][0] == 'attr' and v[2][1][2] == 'valid':
+                run.refute('R-MASK', f, 'verdict-stored-as-returned', s[0].lineno,
+                           'the mask stores `%s`: a user-defined filter whose judgement is numpy.bool_(True) or another truthy value '
+                           'marks nothing, and find_vertices raises "No vertex is collected" although k-mers are accepted'
+                           % show(v)[:60], inputs='filters returning numpy booleans or non-bool truthy judgements')
+                return
         raise AnalysisError("rule R-MASK lost its anchor: no store of bio_filter.valid(...) in find_vertices")
     # every execution fills the mask: the discovery loops together cover all cases (one unconditional loop, or one per
     # arm of a single test such as `if verbose`)
